@@ -33,6 +33,7 @@ class _Server:
 
     proc = None
     crashes = 0
+    timeouts = 0
     counter = 0
     pending_drops: list = []  # sessions released by the garbage collector; flushed at the next safe point
 
@@ -58,6 +59,14 @@ class _Server:
             cls.proc.stdin.flush()
             if not expect_reply:
                 return None
+            # a model whose shapes are computed from data can ask the runtime for a gigantic tensor: bound the wait, then restart
+            import select
+
+            limit = float(os.environ.get("VERIF_ORT_TIMEOUT", "15"))
+            if not select.select([cls.proc.stdout], [], [], limit)[0]:
+                cls.timeouts += 1
+                cls._kill()
+                return ("crash", f"timeout: onnxruntime did not answer within {limit:.0f}s (inconclusive)")
             return pickle.load(cls.proc.stdout)
         except (EOFError, BrokenPipeError, pickle.UnpicklingError, OSError):
             cls.crashes += 1
